@@ -109,6 +109,17 @@ def run(tier: str, seed: int) -> int:
     run_.exhaustive = True
     run_.assumptions = ["numpy cos/sin for the fields", "tolerance 1e-10"]
     shutil.rmtree(work, ignore_errors=True)
+    # ---- default (float32) session: the same public calls on the same inputs in a float32 child process
+    from .. import xsession as _xs
+    import numpy as _np
+    _rng = _np.random.default_rng(seed + 77)
+    _cases = []
+    for _D, _N in ((1, 16), (2, 8), (3, 6), (1, 15), (2, 9), (3, 5)):
+        _u = _rng.standard_normal((2,) + (_N,) * _D)
+        for _pw in (True, False):
+            for _rb in ("sum", "average"):
+                _cases.append(dict(id=f"spec/{_D}/{_N}/{_pw}/{_rb}", name="get_spectrum", args=[_u], kw=dict(power=_pw, radial_binning=_rb)))
+    _xs.compare(run_, PID, _cases, work + "_xs")
     return run_.finish()
 
 
